@@ -6,20 +6,23 @@
 (* exported and executed on a concrete tree by the harness.                *)
 (***************************************************************************)
 EXTENDS Toolchain, Json
-CONSTANTS Export, MaxEdits
+CONSTANTS Export, MaxEdits,
+          Full      \* TRUE: all initial assignments (thorough); FALSE: one per class (quick)
 VARIABLE edits
 
 \* in directory walk order: "932100-chain1.ra" sorts before "932100.ra"
 MCFiles   == <<"932100-chain1", "932100", "932110">>
 MCSources == {"store", "loadonly", "define", "refonly", "flagsprefix", "plain", "unclosed", "incl",
               \* one per fault class of C16, at top level, in a block and in an include
-              "missinginc", "malformed", "unknownproc", "badcmdline", "strayend", "badflag", "oddpairs", "inblock", "ininclude"}
-MCCompiles(s) == s \in {"store", "define", "refonly", "flagsprefix", "plain", "incl"}
-MCFormats(s)  == s \notin {"strayend", "badflag", "oddpairs"}
-MCFmtAborts(s) == s \in {"badflag", "oddpairs"}
+              "missinginc", "malformed", "unknownproc", "badcmdline", "strayend", "badflag", "badflagU", "oddpairs", "inblock", "ininclude",
+              \* programs whose result depends on what an include / exclude file is parsed WITH
+              "exA", "exB", "incpairs"}
+MCCompiles(s) == s \in {"store", "define", "refonly", "flagsprefix", "plain", "incl", "exA", "exB", "incpairs"}
+MCFormats(s)  == s \notin {"strayend", "badflag", "badflagU", "oddpairs"}
+MCFmtAborts(s) == s \in {"badflag", "badflagU", "oddpairs"}
 
 Assign(a, b, c) == [f \in FileSet |-> IF f = "932100-chain1" THEN a ELSE IF f = "932100" THEN b ELSE c]
-InitSrcs == { Assign("store", "loadonly", "plain"),      \* a stored name must not leak into the next file
+InitSrcsAll == { Assign("store", "loadonly", "plain"),      \* a stored name must not leak into the next file
               Assign("define", "refonly", "none"),       \* nor a definition
               Assign("flagsprefix", "plain", "incl"),    \* nor flags / prefixes
               Assign("plain", "unclosed", "define"),     \* a failing file in the middle
@@ -27,7 +30,13 @@ InitSrcs == { Assign("store", "loadonly", "plain"),      \* a stored name must n
               Assign("none", "plain", "none"),
               \* faults in the first / middle / last file of an --all run
               Assign("malformed", "plain", "store"), Assign("plain", "missinginc", "define"), Assign("define", "plain", "unknownproc"),
+              Assign("exA", "exB", "incpairs"), Assign("incpairs", "exB", "exA"), Assign("badflagU", "incpairs", "plain"),
               Assign("badcmdline", "strayend", "plain"), Assign("plain", "badflag", "oddpairs"), Assign("inblock", "plain", "ininclude") }
+
+InitSrcsQuick == { Assign("store", "loadonly", "plain"), Assign("define", "refonly", "none"), Assign("exA", "exB", "incpairs"),
+                   Assign("plain", "unclosed", "define"), Assign("badcmdline", "strayend", "flagsprefix"),
+                   Assign("incl", "badflagU", "oddpairs"), Assign("malformed", "missinginc", "unknownproc"), Assign("inblock", "plain", "ininclude") }
+InitSrcs == IF Full THEN InitSrcsAll \cup InitSrcsQuick ELSE InitSrcsQuick
 
 Init == /\ src \in InitSrcs
         /\ canon \in { [f \in FileSet |-> FALSE], [f \in FileSet |-> TRUE] }
